@@ -103,3 +103,152 @@ pub fn mont_case(data: &[u8]) -> Option<MontCase> {
     }
     Some(MontCase::Ops(c07::OpsCase { n, vals, prog }))
 }
+
+// ---------------------------------------------------------------------------
+// Generic bridge: fuzzer bytes drive a property's own proptest strategy through proptest's
+// PassThrough RNG (the bytes ARE the random stream), so that coverage-guided mutation of the
+// bytes is structure-aware mutation of the generated case, and the artifact decodes to the
+// same case struct the proptest side replays.
+
+use crate::engine::{catch, Fail, Local};
+use proptest::strategy::{Strategy, ValueTree};
+use proptest::test_runner::{Config, RngAlgorithm, TestRng, TestRunner};
+use serde_json::Value;
+
+pub fn from_strategy<S: Strategy>(strat: &S, data: &[u8]) -> Option<S::Value> {
+    // PassThrough yields zeros once the bytes are used up, and rand's rejection sampling never
+    // terminates on an all-zero stream: append a fixed pseudo-random tail (a constant, not derived
+    // from the input, so the mapping bytes -> case stays monotone in the input prefix).
+    static TAIL: std::sync::OnceLock<Vec<u8>> = std::sync::OnceLock::new();
+    let tail = TAIL.get_or_init(|| {
+        let mut r = crate::oracle::int::SplitMix(0x7a11_7a11);
+        (0..8192).flat_map(|_| r.next().to_le_bytes()).collect()
+    });
+    let mut buf = Vec::with_capacity(data.len() + tail.len());
+    buf.extend_from_slice(data);
+    buf.extend_from_slice(tail);
+    let rng = TestRng::from_seed(RngAlgorithm::PassThrough, &buf);
+    let mut runner = TestRunner::new_with_rng(Config { failure_persistence: None, ..Config::default() }, rng);
+    strat.new_tree(&mut runner).ok().map(|t| t.current())
+}
+
+fn eval<C: serde::Serialize>(check: &'static str, c: Option<C>, f: impl FnOnce(&C, &mut Local) -> Result<(), Fail>) -> Option<(&'static str, Value, Result<(), Fail>)> {
+    let c = c?;
+    let mut l = Local::new();
+    let r = match catch(|| f(&c, &mut l)) {
+        Ok(r) => r,
+        Err(p) => Err(Fail::new(format!("unguarded|panic@{}", p.short_loc()), p.msg)),
+    };
+    Some((check, serde_json::to_value(&c).unwrap_or(Value::Null), r))
+}
+
+/// Decode `data` for `target`, run the oracle: (check name, case, verdict).
+pub fn fuzz_one(target: &str, data: &[u8]) -> Option<(&'static str, Value, Result<(), Fail>)> {
+    use crate::props::*;
+    let (sel, rest) = match data.split_first() {
+        Some((s, r)) => (*s, r),
+        None => return None,
+    };
+    match target {
+        "fz_gcd" => eval("gcd", gcd_case(data), c09::check),
+        "fz_mont" => match mont_case(data)? {
+            MontCase::Ops(c) => eval("ops", Some(c), c07::check_ops),
+            MontCase::Redc(c) => eval("redc", Some(c), c07::check_redc),
+            MontCase::Mg64(c) => eval("mg64", Some(c), c07::check_mg64),
+        },
+        "fz_rel" => match sel % 8 {
+            0..=3 => eval("history", from_strategy(&c11::history_strategy(48), rest), c11::check_history),
+            4 | 5 => eval("final", from_strategy(&c11::final_strategy(), rest), c11::check_final),
+            6 => eval("combine", from_strategy(&c11::combine_strategy(), rest), c11::check_combine),
+            _ => eval("pack", from_strategy(&c11::pack_strategy(), rest), c11::check_pack),
+        },
+        "fz_gauss" => eval("gauss", from_strategy(&c14::gauss_strategy(160, 190), rest), c14::check_gauss),
+        "fz_poly" => match sel % 4 {
+            0 => eval("poly", from_strategy(&c10::poly_strategy(48), rest), c10::check_poly),
+            1 => eval("fint", from_strategy(&c10::fint_strategy(), rest), c10::check_fint),
+            2 => eval("mzp", from_strategy(&c10::mzp_strategy(), rest), c10::check_mzp),
+            _ => eval("fconv", from_strategy(&c10::fconv_strategy(), rest), c10::check_fconv),
+        },
+        "fz_curve" => match sel % 3 {
+            0 => eval("law", from_strategy(&c15::law_strategy(), rest), c15::check_law),
+            1 => eval("mul64", from_strategy(&c15::mul64_strategy(), rest), c15::check_mul64),
+            _ => eval("mul1024", from_strategy(&c15::mul1024_strategy(), rest), c15::check_mul1024),
+        },
+        "fz_lin" => match sel % 4 {
+            0 => eval("det", from_strategy(&c19::dense_strategy(), rest), c19::check_dense),
+            1 => eval("snf", from_strategy(&c19::snf_strategy(), rest), c19::check_snf),
+            2 => eval("bm", from_strategy(&c19::bm_strategy(), rest), c19::check_bm),
+            _ => eval("lattice", from_strategy(&c19::lattice_strategy(), rest), c19::check_lattice),
+        },
+        _ => fuzz_one_late(target, sel, rest),
+    }
+}
+
+/// Entry point of every libFuzzer target: panics (= crash artifact) on an oracle failure that is
+/// neither a harness-domain rejection, nor a probe, nor a listed known finding.
+pub fn run_target(target: &str, data: &[u8]) {
+    static HOOK: std::sync::Once = std::sync::Once::new();
+    // wrap libFuzzer's abort-on-panic hook: panics caught by the oracle (guard/catch) stay silent
+    HOOK.call_once(|| {
+        crate::engine::install_panic_hook();
+        // in-target: no helper child processes (the C06 watchdog falls back to a thread)
+        std::env::set_var("YQV_WD_THREAD", "1");
+    });
+    if let Some((check, _case, Err(f))) = fuzz_one(target, data) {
+        if f.class.starts_with("HARNESS|") || f.class.starts_with("PROBE|") {
+            return;
+        }
+        if known_sigs(target).iter().any(|k| *k == f.class || *k == f.sig()) {
+            return;
+        }
+        panic!("YQV-FUZZ-VIOLATION check={} {} :: {}", check, f.sig(), f.what);
+    }
+}
+
+/// property id a target belongs to
+pub fn property_of(target: &str) -> &'static str {
+    match target {
+        "fz_gcd" => "C09",
+        "fz_mont" => "C07",
+        "fz_rel" => "C11",
+        "fz_gauss" => "C14",
+        "fz_poly" => "C10",
+        "fz_curve" => "C15",
+        "fz_lin" => "C19",
+        "fz_div" => "C08",
+        "fz_prime" => "C06",
+        _ => "?",
+    }
+}
+
+fn known_sigs(target: &str) -> Vec<String> {
+    static CACHE: std::sync::Mutex<Option<Vec<crate::engine::KnownFinding>>> = std::sync::Mutex::new(None);
+    let mut g = CACHE.lock().unwrap();
+    let all = g.get_or_insert_with(|| {
+        let root = std::path::PathBuf::from(std::env::var("YQV_ROOT").unwrap_or_else(|_| "/verif".into()));
+        crate::engine::load_known_findings(&root)
+    });
+    let id = property_of(target);
+    all.iter().filter(|k| k.property == id).map(|k| k.sig.clone()).collect()
+}
+
+/// targets whose modules were merged later
+fn fuzz_one_late(target: &str, sel: u8, rest: &[u8]) -> Option<(&'static str, Value, Result<(), Fail>)> {
+    use crate::props::*;
+    match target {
+        "fz_div" => match sel % 8 {
+            0 | 1 => eval("div", from_strategy(&c08::div_strategy(), rest), c08::check_div),
+            2 => eval("inverter", from_strategy(&c08::inverter_strategy(), rest), c08::check_inverter),
+            3 => eval("inv_mod64", from_strategy(&c08::inv64_strategy(), rest), c08::check_inv64),
+            4 => eval("sqrt_mod", from_strategy(&c08::sqrt_strategy(), rest), c08::check_sqrt),
+            5 => eval("pow_mod", from_strategy(&c08::pow_strategy(), rest), c08::check_pow),
+            6 => eval("isqrt", from_strategy(&c08::isqrt_strategy(), rest), c08::check_isqrt),
+            _ => eval("perfect_power", from_strategy(&c08::pp_strategy(), rest), c08::check_pp),
+        },
+        "fz_prime" => match sel % 2 {
+            0 => eval("isprime64", from_strategy(&c06::p64_strategy(), rest), c06::check_p64),
+            _ => eval("pseudoprime", from_strategy(&c06::big_strategy(), rest), c06::check_big),
+        },
+        _ => None,
+    }
+}
